@@ -4,7 +4,7 @@ from __future__ import annotations
 
 from typing import Dict, List
 
-from dst.engines.e1_diff import E1Core, E1Persist, E2Actuators, E2Clamp, E7Heap
+from dst.engines.e1_diff import E1Core, E1Persist, E1Layout, E2Actuators, E2Clamp, E7Heap
 from dst.engines.e3_phases import E3Phases
 from dst.engines.e8_host import E8Actuators, E8Helpers
 from dst.engines.e9_pc import E9Determinism, E9Hostile, E9Project, E9Target
@@ -17,6 +17,7 @@ _E2_CLAMP = E2Clamp()
 _E3 = E3Phases()
 _E1_PERSIST = E1Persist()
 _E7 = E7Heap()
+_E1_LAYOUT = E1Layout()
 _E8_ACT = E8Actuators()
 _E8_HELP = E8Helpers()
 _E9_TARGET = E9Target()
@@ -34,6 +35,7 @@ PLANS: Dict[str, List[dict]] = {
         {"engine": _E3, "quick": 1500, "thorough": 25000, "quick_wall_s": 90, "thorough_wall_s": 900},
         {"engine": _E1_PERSIST, "quick": 800, "thorough": 10000, "quick_wall_s": 60, "thorough_wall_s": 600},
     ],
+    "C07": [{"engine": _E1_LAYOUT, "quick": 1800, "thorough": 30000, "quick_wall_s": 120, "thorough_wall_s": 1500}],
     "C09": [{"engine": _E7, "quick": 700, "thorough": 12000, "quick_wall_s": 120, "thorough_wall_s": 1500}],
     "C10": [{"engine": _E9_DET, "quick": 160, "thorough": 1500, "quick_wall_s": 120, "thorough_wall_s": 1200}],
     "C11": [{"engine": _E9_HOSTILE, "quick": 400, "thorough": 6000, "quick_wall_s": 120, "thorough_wall_s": 1200}],
